@@ -24,7 +24,12 @@ import (
 //	local  = n (no admin object) | d (admin.disabled) | a<id> (id 0..1: a loopback TCP address, default
 //	         origins) | t<id> (the same address, origins that exclude its own Host) | b (an address that
 //	         cannot be bound: the load must be rejected and change nothing)
+//	         a<id>! | t<id>! | d!  the same admin section in a config that is REJECTED LATE: an app
+//	         of it cannot be provisioned (caddy.go provisionContext: after replaceLocalAdminServer)
 //	remote = ~ (no admin.remote) | a<id>=<acl>                (id 2..3; acl as in the req op)
+//	         x<id>=<acl>   the same, followed by an entry whose public key cannot be decoded: the load is
+//	         rejected in finishSettingUp → replaceRemoteAdminServer (after the stop of the previous
+//	         remote server was registered, after the local endpoint was replaced)
 //
 // Answer: per step, for every address seen so far: L<id>:dn|ok|no|mix   R<id>:dn|<4 letters>, one letter per
 // key: s served, m method refused, p path refused, r rejected (not a listed key: TLS or 401);
@@ -38,6 +43,7 @@ type hstep struct {
 	remoteID  int
 	acl       []access
 	aclString string
+	fail      string // "" | "prov" (app provisioning error) | "key" (undecodable remote public key)
 }
 
 func parseHist(f []string) ([]hstep, bool) {
@@ -51,6 +57,9 @@ func parseHist(f []string) ([]hstep, bool) {
 			return nil, false
 		}
 		var h hstep
+		if l := parts[0]; len(l) > 1 && strings.HasSuffix(l, "!") && l != "n!" && l != "b!" {
+			h.fail, parts[0] = "prov", l[:len(l)-1]
+		}
 		switch {
 		case parts[0] == "n" || parts[0] == "d":
 			h.local = parts[0]
@@ -65,6 +74,9 @@ func parseHist(f []string) ([]hstep, bool) {
 		}
 		if parts[1] != "~" {
 			ra := strings.SplitN(parts[1], "=", 2)
+			if len(ra) == 2 && (ra[0] == "x2" || ra[0] == "x3") && h.fail == "" {
+				h.fail, ra[0] = "key", "a"+ra[0][1:]
+			}
 			if len(ra) != 2 || (ra[0] != "a2" && ra[0] != "a3") || h.local == "n" || h.local == "b" {
 				return nil, false
 			}
@@ -140,11 +152,17 @@ func (p *prop) histConfig(h hstep, ports map[int]int) []byte {
 			}
 			acl = append(acl, aa)
 		}
+		if h.fail == "key" {
+			acl = append(acl, map[string]any{"public_keys": []string{"!c13: not base64 DER!"}})
+		}
 		admin["remote"] = map[string]any{"listen": "127.0.0.1:" + strconv.Itoa(ports[h.remoteID]), "access_control": acl}
 	}
 	base["admin"] = admin
 	if h.local == "n" {
 		delete(base, "admin")
+	}
+	if h.fail == "prov" {
+		base["apps"].(map[string]any)["c13_no_such_app"] = map[string]any{}
 	}
 	b, _ := json.Marshal(base)
 	return b
@@ -293,6 +311,9 @@ func (p *prop) runHist(line string, f []string) core.Outcome {
 	// what the property lets each address configured so far answer (the state after the last
 	// SUCCESSFUL load; a rejected load must leave it as it is)
 	wantL, wantR := map[int]string{}, map[int]string{}
+	// what the CODE is expected to answer (only used to decide how long a probe waits for an
+	// asynchronous shutdown): differs from want after a load that was rejected late
+	expL, expR := map[int]string{}, map[int]string{}
 	curPats = nil
 	seenL, seenR := map[int]bool{}, map[int]bool{}
 	var res []string
@@ -301,8 +322,38 @@ func (p *prop) runHist(line string, f []string) core.Outcome {
 			panic("restoring base config: " + err.Error())
 		}
 	}()
+	// dirty: a load was rejected AFTER the local endpoint had been replaced, and no load has been
+	// accepted since
+	dirty := false
 	for i, h := range steps {
-		if h.local == "b" {
+		if h.local == "a" {
+			if !seenL[h.localID] {
+				seenL[h.localID], wantL[h.localID], expL[h.localID] = true, "dn", "dn"
+			}
+		}
+		if h.remote && !seenR[h.remoteID] {
+			seenR[h.remoteID], wantR[h.remoteID], expR[h.remoteID] = true, "dn", "dn"
+		}
+		if h.local != "b" && h.fail != "" {
+			// rejected late: the property's expectation stays that of the last ACCEPTED config
+			if err := caddy.Load(p.histConfig(h, ports), true); err == nil {
+				out.Failures = append(out.Failures, core.Failure{Class: "unloadable-config-accepted",
+					What: fmt.Sprintf("load %d cannot be provisioned (%s), yet it was not rejected", i+1, h.fail)})
+			}
+			dirty = true
+			for id := range seenL {
+				expL[id] = "dn"
+			}
+			if h.local == "a" {
+				expL[h.localID] = map[bool]string{false: "ok", true: "no"}[h.tight]
+			}
+			if h.fail == "key" {
+				for id := range seenR {
+					expR[id] = "dn"
+				}
+			}
+			out.Tags = append(out.Tags, "hist:rejected-late:"+h.fail)
+		} else if h.local == "b" {
 			// an admin address that cannot be bound: a foreign socket (no SO_REUSEPORT) holds the port
 			foreign, err := net.Listen("tcp", "127.0.0.1:0")
 			if err != nil {
@@ -319,6 +370,7 @@ func (p *prop) runHist(line string, f []string) core.Outcome {
 			if err := caddy.Load(p.histConfig(h, ports), true); err != nil {
 				panic(fmt.Sprintf("hist op: caddy.Load of step %d failed: %v", i, err))
 			}
+			dirty = false
 			for id := range wantL {
 				wantL[id] = "dn"
 			}
@@ -346,10 +398,19 @@ func (p *prop) runHist(line string, f []string) core.Outcome {
 		sort.Ints(ids)
 		for _, id := range ids {
 			want := wantL[id]
-			got := probeLocal(ports[id], want)
+			if !dirty {
+				expL[id] = want
+			}
+			got := probeLocal(ports[id], expL[id])
 			parts = append(parts, fmt.Sprintf("L%d:%s", id, got))
 			if got != want {
 				switch {
+				case dirty && want == "dn":
+					out.Failures = append(out.Failures, core.Failure{Class: "rejected-config-local-admin-endpoint-live",
+						What: fmt.Sprintf("after load %d (a load was REJECTED and none accepted since) local address %d, which the running config does not configure, answers (%s): the admin endpoint of a config that was never accepted is listening", i+1, id, got)})
+				case dirty && want == "no" && (got == "mix" || got == "ok"):
+					out.Failures = append(out.Failures, core.Failure{Class: "rejected-config-origin-policy-enforced",
+						What: fmt.Sprintf("after load %d (a load was REJECTED and none accepted since) the running config allows only the origin c13-only.example on local address %d, yet requests with the Host 127.0.0.1:<port> are served there (%s of 32): the endpoint enforces the origins of a config that was never accepted", i+1, id, got)})
 				case want == "dn":
 					out.Failures = append(out.Failures, core.Failure{Class: "local-admin-outlives-its-config",
 						What: fmt.Sprintf("after load %d the local admin endpoint of an EARLIER config (address %d) still answers (%s)", i+1, id, got)})
@@ -366,7 +427,10 @@ func (p *prop) runHist(line string, f []string) core.Outcome {
 		sort.Ints(ids)
 		for _, id := range ids {
 			want := wantR[id]
-			got := p.probeRemote(ports[id], want)
+			if !dirty {
+				expR[id] = want
+			}
+			got := p.probeRemote(ports[id], expR[id])
 			parts = append(parts, fmt.Sprintf("R%d:%s", id, got))
 			if got != want {
 				switch {
